@@ -59,9 +59,9 @@ func Main(args []string) int {
 	}
 	seed = *sd
 	thorough = *tier == "thorough"
-	tp := tierParams{vals: 1, perClass: 2, flipBytes: 12, flipCap: 4096, budget: 700 * time.Millisecond, mutBudget: 150 * time.Millisecond, malBudget: 300 * time.Millisecond}
+	tp := tierParams{vals: 2, perClass: 3, flipBytes: 12, flipCap: 4096, budget: 700 * time.Millisecond, mutBudget: 150 * time.Millisecond, malBudget: 300 * time.Millisecond}
 	if thorough {
-		tp = tierParams{vals: 3, perClass: 0, flipBytes: 0, flipCap: 3000, truncAll: true, budget: 5 * time.Second, mutBudget: 1500 * time.Millisecond, malBudget: 4 * time.Second}
+		tp = tierParams{vals: 6, perClass: 0, flipBytes: 0, flipCap: 3000, truncAll: true, budget: 5 * time.Second, mutBudget: 1500 * time.Millisecond, malBudget: 4 * time.Second}
 	}
 	quickTp := tierParams{vals: 1, perClass: 2, flipBytes: 12, flipCap: 4096, budget: 700 * time.Millisecond, mutBudget: 150 * time.Millisecond, malBudget: 300 * time.Millisecond}
 
@@ -151,6 +151,10 @@ func campaign(typ string, cs []*capture, tp tierParams, pool *leafPool, stream u
 	rng := tr.PRand(seed, 1000+stream)
 	// distinct encodings first
 	sort.SliceStable(cs, func(i, j int) bool { return cs[i].name < cs[j].name })
+	// the values that get mutated are the first tp.vals ones: put structurally different encodings first (one per container
+	// shape), the richest shape (most arrays with two or more elements: multi-row shares, several levels, ...) at the front,
+	// so that a small tier does not spend its values on structurally identical instances
+	cs = shapeFirst(cs)
 	cnt := map[string]int{}
 	pos := map[string]int{} // number of applicable positions over the mutated values
 	var nmut int
@@ -438,3 +442,45 @@ type captureGroup struct {
 var captureGroups []captureGroup
 
 func group(name string, fn func()) { captureGroups = append(captureGroups, captureGroup{name, fn}) }
+
+
+// shapeFirst reorders captures (stable): first one representative per distinct container shape, richest first, then the rest.
+func shapeFirst(cs []*capture) []*capture {
+	type info struct {
+		sig  string
+		rich int
+	}
+	inf := make([]info, len(cs))
+	for i, c := range cs {
+		var sb strings.Builder
+		rich := 0
+		for _, st := range sites(c.tree) {
+			switch st.n.mt {
+			case mtMap, mtArray:
+				fmt.Fprintf(&sb, "%d:%d,", st.n.mt, len(st.n.kids))
+				if st.n.mt == mtArray && len(st.n.kids) >= 2 {
+					rich++
+				}
+			case mtTag:
+				sb.WriteString("t,")
+			}
+		}
+		inf[i] = info{sb.String(), rich}
+	}
+	seen := map[string]bool{}
+	reps, rest := []int{}, []int{}
+	for i := range cs {
+		if !seen[inf[i].sig] {
+			seen[inf[i].sig] = true
+			reps = append(reps, i)
+		} else {
+			rest = append(rest, i)
+		}
+	}
+	sort.SliceStable(reps, func(a, b int) bool { return inf[reps[a]].rich > inf[reps[b]].rich })
+	out := make([]*capture, 0, len(cs))
+	for _, i := range append(reps, rest...) {
+		out = append(out, cs[i])
+	}
+	return out
+}
